@@ -57,3 +57,152 @@ Theorem C01_qp_bare_cr_refuted : exists c : bytes,
   wf_bytes c = true /\ qp_decode (qp_body c) <> Some (canon_crlf c).
 Proof. exact qp_bare_cr_refuted. Qed.
 Print Assumptions C01_qp_bare_cr_refuted.
+
+(* ======================= tier B: the rendered bytes as a pure function, the independent
+   reader, and the end-to-end statement =======================
+   Models: coq/theories/Render.v (pure serialisation of a resolved message), MimeTree.v,
+   MimeRead.v (reader written from RFC 5322 / 2045 / 2046 only). *)
+From Coq Require Import String.
+From Verif Require Import HeaderFold WordEnc MimeTree MimeRead Render.
+From VerifProofs Require Import WriterProofs RenderIdemProofs RenderProofs MimeReadProofs C01Proofs.
+
+(* the state-passing writer model (validated byte-for-byte against go-mail on every run) writes,
+   on a destination that never fails, exactly the pure serialisation — for every message without
+   a failing producer and without a rejected cached boundary; no error, no panic *)
+Theorem C01_render_pure : forall (d i : bytes) (rb : list bytes) (m : msg),
+  no_bad_boundary (resolve d i rb m) -> msg_has_failing_producer m = false ->
+  r_out (write_to d i rb m unlimited) = render_pure (resolve d i rb m) /\
+  r_err (write_to d i rb m unlimited) = false /\
+  r_panic (write_to d i rb m unlimited) = false.
+Proof. exact write_to_pure. Qed.
+Print Assumptions C01_render_pure.
+
+Theorem C01_write_resolved_pure : forall z : rmsg,
+  no_bad_boundary z -> rmsg_has_failing_producer z = false ->
+  let st := write_resolved z (mw_init unlimited) in
+  err st = false /\ panicked st = false /\ accepted (snk st) = render_pure z.
+Proof. exact write_resolved_unlimited. Qed.
+Print Assumptions C01_write_resolved_pure.
+
+(* every boundary delimits what it announces (RFC 2046 5.1.1): if no child text contains
+   CRLF "--" b and no child starts with "--" b, the reader splits the framed children exactly *)
+Theorem C01_frame_split : forall (b : bytes) (kids : list bytes),
+  ~ In 13%N b ->
+  (forall k, In k kids -> occurs (crlf ++ dashdash ++ b) k = false /\ is_prefix (dashdash ++ b) k = false) ->
+  split_parts b (mp_frame b kids) = Some kids.
+Proof. exact frame_split_spelled. Qed.
+Print Assumptions C01_frame_split.
+
+(* the reader inverts the serialisation of every readable tree (any depth, any width) *)
+Theorem C01_read_tree : forall t : node, wf_tree t = true -> read_tree (ser_node t) = Some t.
+Proof. exact read_tree_ser. Qed.
+Print Assumptions C01_read_tree.
+
+(* the reader finds the boundary startMP announces (unquoted, after a folded line), below any
+   header lines that are not a Content-Type field *)
+Theorem C01_reader_finds_boundary : forall top mime b : bytes,
+  crun top CLine = CLine -> mime_plain mime = true -> btoken b = true ->
+  mp_boundary (top ++ mp_hdr mime b) = Some b.
+Proof. exact mp_boundary_mp_hdr. Qed.
+Print Assumptions C01_reader_finds_boundary.
+
+(* END TO END.  For every message with at least one body part, no failing producer, no rejected
+   cached boundary, under H-leaf / H-rand (fresh_expected: leaf header blocks are complete lines
+   not declaring a multipart; boundaries are plain tokens; no child of a multipart node shows a
+   delimiter of that node's boundary): the independent reader applied to the bytes WriteTo
+   produced finds exactly the expected tree — one leaf per body part, embed and attachment, in
+   this order, with its header text and encoded body, nested mixed > related > alternative
+   exactly when attachments / embeds / alternatives are present (expected_forest). *)
+Theorem C01_leaves : forall (d i : bytes) (rb : list bytes) (m : msg),
+  let z := resolve d i rb m in
+  (1 <= length (m_parts m))%nat ->
+  msg_has_failing_producer m = false ->
+  no_bad_boundary z ->
+  fresh_expected z = true ->
+  read_tree (r_out (write_to d i rb m unlimited)) = Some (expected_tree z).
+Proof. exact leaves_thm. Qed.
+Print Assumptions C01_leaves.
+
+(* the leaves of the expected tree, in document order *)
+Theorem C01_expected_leaves : forall (z : rmsg) (t : node),
+  expected_forest z = [t] ->
+  let m := z_msg z in
+  let folded := (Nat.eqb (length (m_parts m)) 1 && Nat.eqb (length (z_embeds z)) 0 && Nat.eqb (length (z_attach z)) 0)%bool in
+  leaves t =
+  map (fun p => (part_hdr folded (m_wenc m) (m_charset m) p, encode_body (p_enc p) (p_prod p))) (m_parts m) ++
+  map (fun fe => (file_hdr false (fst fe), encode_body (snd fe) (f_prod (fst fe)))) (z_embeds z) ++
+  map (fun fe => (file_hdr false (fst fe), encode_body (snd fe) (f_prod (fst fe)))) (z_attach z).
+Proof. exact expected_leaves. Qed.
+Print Assumptions C01_expected_leaves.
+
+(* base64 leaves: the encoded body contains no '-' at all, so H-rand is a hypothesis on the
+   leaf's HEADER block only; and decoding the leaf yields exactly the supplied content *)
+Theorem C01_b64_leaf_fresh : forall (b h : bytes) (p : producer),
+  ~ In 13%N b ->
+  occurs (delimiter b) (crlf ++ h ++ crlf) = false ->
+  occurs (delimiter b) (crlf ++ ser_node (Leaf h (encode_body EncB64 p))) = false.
+Proof. exact b64_leaf_fresh. Qed.
+Print Assumptions C01_b64_leaf_fresh.
+
+Theorem C01_b64_leaf_decodes : forall p : producer,
+  wf_bytes (concat (pchunks p)) = true ->
+  b64dec (strip_crlf (encode_body EncB64 p)) = Some (concat (pchunks p)).
+Proof. exact b64_leaf_decodes. Qed.
+Print Assumptions C01_b64_leaf_decodes.
+
+(* ---- the hypotheses are satisfiable: two alternatives + one embed + one attachment ---- *)
+Definition ex_msg : msg :=
+  mkmsg (bs "UTF-8") 113%N
+        [(bs "Subject", [bs "C01 example"])] []
+        (Some (bs "<alice@example.com>")) [(bs "To", [bs "<bob@example.com>"])]
+        [mkpart (bs "text/plain") [] EncQP [] (mkprod [bs "Hello = world"; crlf; bs "--not a boundary"; crlf] false);
+         mkpart (bs "text/html") (bs "ISO-8859-1") EncB64 (bs "the html part") (mkprod [bs "<p>Hello</p>"] false)]
+        [mkfile (bs "logo.png") (bs "image/png") None [] [] (mkprod [[137; 80; 78; 71; 13; 10; 26; 10]%N] false)]
+        [mkfile (bs "notes.txt") (bs "text/plain; charset=utf-8") (Some Enc8bit) (bs "notes") [] (mkprod [bs "line one"; crlf] false)]
+        [] [] [].
+Definition ex_date : bytes := bs "Wed, 30 Sep 2026 12:00:00 +0000".
+Definition ex_msgid : bytes := bs "<1.2.3@example.com>".
+Definition ex_rb : list bytes := [bs "b0b0b0b0b0b0b0b0b0b0"; bs "c1c1c1c1c1c1c1c1c1c1"; bs "d2d2d2d2d2d2d2d2d2d2"].
+Definition ex_z : rmsg := resolve ex_date ex_msgid ex_rb ex_msg.
+
+Example C01_leaves_hypotheses_satisfiable :
+  (1 <= length (m_parts ex_msg))%nat /\ msg_has_failing_producer ex_msg = false /\
+  no_bad_boundary ex_z /\ fresh_expected ex_z = true.
+Proof. repeat split; try (vm_compute; reflexivity). cbn. auto. Qed.
+
+(* … and the statement is not vacuous on it: three layers, four leaves *)
+Example C01_leaves_example_shape :
+  match expected_tree ex_z with
+  | Multi _ b0 [Multi _ b1 [Multi _ b2 [Leaf _ _; Leaf _ _]; Leaf _ _]; Leaf _ _] =>
+      b0 = nth 0 ex_rb [] /\ b1 = nth 1 ex_rb [] /\ b2 = nth 2 ex_rb []
+  | _ => False
+  end.
+Proof. vm_compute. auto. Qed.
+
+Example C01_leaves_example_direct :
+  read_tree (r_out (write_to ex_date ex_msgid ex_rb ex_msg unlimited)) = Some (expected_tree ex_z).
+Proof. vm_compute. reflexivity. Qed.
+
+Example C01_frame_split_hypotheses_satisfiable :
+  let b := bs "XyZ" in let kids := [bs "first" ++ crlf ++ bs "--Xy"; []; bs "--XY-- third"] in
+  ~ In 13%N b /\
+  (forall k, In k kids -> occurs (crlf ++ dashdash ++ b) k = false /\ is_prefix (dashdash ++ b) k = false).
+Proof.
+  cbv zeta. split; [vm_compute; intuition discriminate|].
+  intros k [H|[H|[H|[]]]]; subst; vm_compute; auto.
+Qed.
+
+(* a single text part (no layer at all: the leaf's header is the folded depth-0 form, joined
+   with the top-level header block) *)
+Definition ex_single : msg :=
+  mkmsg (bs "UTF-8") 113%N [(bs "Subject", [bs "single"])] [] (Some (bs "<alice@example.com>"))
+        [(bs "To", [bs "<bob@example.com>"])]
+        [mkpart (bs "text/plain") [] Enc8bit [] (mkprod [bs "just text"; crlf] false)] [] [] [] [] [].
+
+Example C01_leaves_single_part :
+  fresh_expected (resolve ex_date ex_msgid ex_rb ex_single) = true /\
+  match expected_tree (resolve ex_date ex_msgid ex_rb ex_single) with
+  | Leaf _ body => body = bs "just text" ++ crlf
+  | _ => False
+  end.
+Proof. split; vm_compute; reflexivity. Qed.
